@@ -106,6 +106,13 @@ func allKeysSideCondition(c *core.Ctx, a *engb.Analyzer) (bool, string) {
 					}
 				case *ssa.IndexAddr:
 					body := x.Block()
+					if hdr := body.Idom(); hdr != nil {
+						for _, in := range hdr.Instrs {
+							if ph, ok := in.(*ssa.Phi); ok && ph.Comment != "rangeindex" {
+								return false, "the loop over allKeys() carries " + ph.Name() + " (" + ph.Comment + ") from one id to the next, and the ids come in map order"
+							}
+						}
+					}
 					for _, bb := range g.Blocks {
 						if !body.Dominates(bb) {
 							continue
@@ -114,8 +121,11 @@ func allKeysSideCondition(c *core.Ctx, a *engb.Analyzer) (bool, string) {
 							if st, ok := in.(*ssa.Store); ok {
 								if fa, ok := st.Addr.(*ssa.FieldAddr); ok {
 									n := fieldName(fa)
-									if _, isAlloc := fa.X.(*ssa.Alloc); isAlloc && n != "SchemaMappings" {
-										continue // filling the local mapping value
+									if al, isAlloc := fa.X.(*ssa.Alloc); isAlloc && n != "SchemaMappings" {
+										if !body.Dominates(al.Block()) {
+											return false, "the value filled in the loop over allKeys() (field " + n + ", " + c.Prog.InstrPos(in) + ") is declared outside the loop: what one id sets is still there for the next id, and the ids come in map order"
+										}
+										continue // filling the iteration's own mapping value
 									}
 									if n != "SchemaMappings" {
 										return false, "loop over allKeys() stores into " + n + " at " + c.Prog.InstrPos(in)
